@@ -105,6 +105,10 @@ def judge(cid, src, inputs, mode, feats, meta):
         if bad and not mon.violations:
           if 'PoisonRead' in bad or 'PoisonRead' in str(c.get('exc_text', '')) or c.get('value') == 'PoisonRead':
             detail = 'input %s: a variable placed after nouts was read later: %s' % (a, bad)
+          elif '<POISON>' in bad:
+            # the value the monitor put into a non-output position left the function unread: in a global, through a
+            # nonlocal, or in the returned value
+            detail = 'input %s: a variable placed after nouts is observable after the statement: %s' % (a, bad)
           else:
             out['verdict'] = 'inconclusive'
             out['detail'] = 'monitor changed behaviour (harness): input %s: %s\n%s' % (a, bad, stream.body_of(src))
